@@ -54,7 +54,7 @@ func taskUser(tid int) time.Duration {
 
 // HangSeconds is the wall time after which the worker reports a decode as not returned,
 // together with the user CPU time the decode thread has spent on it, and exits.
-const HangSeconds = 20
+const HangSeconds = 75
 
 func liveHeap() uint64 {
 	s := []metrics.Sample{{Name: "/memory/classes/heap/objects:bytes"}}
